@@ -586,13 +586,14 @@ class BasicContiguousVector<cntgs::Options<Option...>, Parameter...>
         {
             if (is_memcmp_comparable_to(other))
             {
-                if (empty())
-                {
-                    return other.empty();
-                }
-                if (other.empty())
+                // elements can be empty (all fixed sizes zero), the bytes alone do not tell how many there are
+                if (size() != other.size())
                 {
                     return false;
+                }
+                if (empty())
+                {
+                    return true;
                 }
                 return detail::trivial_equal(data_begin(), data_end(), other.data_begin(), other.data_end());
             }
@@ -615,6 +616,11 @@ class BasicContiguousVector<cntgs::Options<Option...>, Parameter...>
                 if (other.empty())
                 {
                     return false;
+                }
+                if (data_begin() == data_end())
+                {
+                    // elements without any bytes are all equal, the shorter vector is the smaller one
+                    return size() < other.size();
                 }
                 return detail::trivial_lexicographical_compare(data_begin(), data_end(), other.data_begin(),
                                                                other.data_end());
